@@ -178,7 +178,9 @@ def c07_passes(tier, sc):
     # tool paths are filled in by the driver from the build result (see check: extra_bins)
     return [Pass('asan', 'h_fits.asan', 'C07', n(tier, 2600, 40000, sc), env=LEAK_ENV, extra_bins={'eval': 'tool_eval.asan', 'inspect': 'tool_inspect.asan'}),
             # same mutants in the production build: judges the cases ASan cannot (requests above its allocator limit abort under ASan, throw bad_alloc here)
-            Pass('prod', 'h_fits.prod', 'C07', n(tier, 2600, 40000, sc), env={'VF_RLIMIT_AS_MB': '4096'})]
+            Pass('prod', 'h_fits.prod', 'C07', n(tier, 2600, 40000, sc), env={'VF_RLIMIT_AS_MB': '4096'}),
+            # damaged files read with every fresh heap byte pre-filled with one of seven patterns: the same verdict (refused / accepted) and the same table as with a clean heap
+            Pass('junk', 'h_junk.prod', 'C07junk', n(tier, 1200, 12000, sc), stall_s=300, env={'VF_RLIMIT_AS_MB': '4096'})]
 
 
 def c07_post(a, res):
@@ -196,8 +198,8 @@ PROPS['C07'] = dict(
                'libFuzzer target (clang, ASan+UBSan) on read_fits_mem with a structure-aware custom mutator working on the decoded HDU list (cards, data sizes, extension order) '
                'next to the byte mutations of libFuzzer: 8 x 12 000 executions per quick run, 16 x 300 000 in the thorough tier, from a generated seed corpus.',
     level_note=NOTE_COMMON + '; crashes wholly inside libcfitsio would be reported with their own key',
-    technique='fault injection on input bytes (structure-aware mutants and coverage-guided libFuzzer pass) + sanitizers (ASan/UBSan/LSan) + well-formedness oracle',
-    targets=[T('h_fits.cpp', 'asan'), T('h_fits.cpp', 'prod'), TOOL_EVAL, TOOL_INSPECT, T('fz_read.cpp', 'fuzz')],
+    technique='fault injection on input bytes (structure-aware mutants and coverage-guided libFuzzer pass) + sanitizers (ASan/UBSan/LSan) + well-formedness oracle; uninitialised-memory independence by intervention (same verdict and table for seven fill patterns of fresh heap memory)',
+    targets=[T('h_fits.cpp', 'asan'), T('h_fits.cpp', 'prod'), TOOL_EVAL, TOOL_INSPECT, T('fz_read.cpp', 'fuzz'), T('h_junk.cpp', 'prod')],
     passes=c07_passes,
     post=c07_post,
     level='fault_enumeration',
@@ -205,7 +207,8 @@ PROPS['C07'] = dict(
          'distinct_nontrivial counts distinct mutated byte strings; counters give accepted/rejected per mutation kind',
     assumptions=ASSUME_COMMON,
     require={'any': {'reads-failed': 500, 'reads-succeeded': 150, 'batteries-run': 100, 'reuse-after-failure-checks': 400, 'tool-runs:photospline-eval': 200,
-                     'fuzz:execs': 50000, 'fuzz:accepted': 3000, 'fuzz:rejected': 20000, 'fuzz:structured-mutations': 3000, 'max-fuzz:coverage-edges': 700}},
+                     'fuzz:execs': 50000, 'fuzz:accepted': 3000, 'fuzz:rejected': 20000, 'fuzz:structured-mutations': 3000, 'max-fuzz:coverage-edges': 700,
+                     'runs-compared-with-the-clean-heap-run': 5000, 'reads-accepted': 200, 'reads-refused': 200}},
 )
 
 
